@@ -161,6 +161,9 @@ class Machine:
                                 what += ',weight-bytes'
                             break
                 V('input-mutated', [opname, what], f'{opname} changed grammar #{i} ({self.fggs[i]["kind"]}) in {keys}.{detail}')
+        if not torch.is_grad_enabled():
+            torch.set_grad_enabled(True)
+            V('global-state-changed', [opname, 'grad-mode'], f'{opname} left autograd recording disabled for the rest of the process')
         for i, x in enumerate(self.fggs):
             if x.get('twin') is not None and not (x['g'] == x['twin']):
                 V('input-mutated', [opname, 'not==pre-query-copy'], f'after {opname} grammar #{i} is no longer == to the copy taken before any query')
@@ -281,7 +284,7 @@ class Machine:
                     val = ('dict', tuple((el.name, dense_bytes(t)) for el, t in r.items() if el.is_nonterminal))
                 else:
                     z = self.F.sum_product(g, semiring=S, method=method, kmax=kmax, tol=1e-9)
-                    val = ('tensor', dense_bytes(z))
+                    val = ('tensor', dense_bytes(z), bool(z.physical.requires_grad))
                     zd = z.to_dense()
                     if zd.requires_grad and sem in ('real', 'log'):
                         self.pending.append({'z': zd, 'zp': z, 'g': g, 'sem': sem, 'method': method, 'kmax': kmax})
@@ -306,6 +309,10 @@ class Machine:
             return None
         shape = g.shape(g.start)
         asst = tuple(a[1 + i] % s for i, s in enumerate(shape))
+        if shape and a[5] % 5 == 0:
+            # a query that must fail (start assignment out of range): it may raise, it must not leave anything behind
+            asst = (shape[0] + a[4] % 2,) + asst[1:]
+            self.c.inc('fault.must-fail-call.fired')
         before = self.snaps()
         try:
             with recorded_warnings():
